@@ -8,9 +8,10 @@ Part B is about the scheduler (model M5 = `_compute_next_timestep_and_run_presol
 thresholds, priorities, steps, start clock time, duration) and all states satisfying the loop invariant `Inv`, which
 `startState_inv` establishes for a fresh model and for a model left by an earlier run.
 
-What is stated but not proved is kept as a `def … : Prop` (see `PresolveEarliest`).
+`PresolveEarliest` (exact landing) and `no_instant_skipped` (along a whole run) are proved via Lemmas/SchedEarliest.lean.
 -/
 import WntrModel.Lemmas.Sched
+import WntrModel.Lemmas.SchedEarliest
 
 namespace Wntr.C04
 open Wntr.Time Wntr.Sched
@@ -169,28 +170,98 @@ theorem fresh_start_accepts_zero {cfg : Cfg} (hR : 0 < cfg.rule) (vals : Vals) :
   rw [hp] at h1; rw [h0] at h2
   omega
 
-/-- the full "earliest instant" statement for pure time controls: `presolve` applies the groups of equal backtrack
-in time order and stops at the first group after which a tracked value differs from the reference.  Written as the
-executable specification `landSpec`; the equality with `presolve` is NOT proved here (it needs the group-boundary
-invariant `∀ d ∈ due.take cnt, d.back > due[cnt].back` threaded through `loopStep_spec` and the identification of
-`runGroup` with `takeWhile`) — it is checked by the correspondence run and by the instants oracle on the real
-simulator; the proved parts are `presolve_lands_on_instant` (lands only on an instant, cut only on a change),
-`due_in_time_order` and `same_instant_group`. -/
-def landSpec (ref : Vals) (cur : Int) : List Due → Vals → Int × Vals
-  | [], v => (cur, v)
-  | d :: ds, v =>
-    let g := (d :: ds).takeWhile (fun x => x.back == d.back)
-    let v' := g.foldl (fun v x => x.run v) v
-    if changed ref v' then (cur - d.back, v') else landSpec ref cur ((d :: ds).dropWhile (fun x => x.back == d.back)) v'
-termination_by l => l.length
-decreasing_by
-  simp only [List.dropWhile_cons, beq_self_eq_true, if_true, List.length_cons]
-  exact Nat.lt_succ_of_le (List.dropWhile_sublist _).length_le
-
+/-- the full "earliest instant" statement: when the rules are inert in the pass (there are none, or no rule timestep is
+pending up to the tentative time) `presolve` serves the groups of equal backtrack in time order and stops at the first
+group after which a tracked value differs from its value at the start of the pass: new time and values are those of the
+executable specification `landSpec` (Lemmas/SchedEarliest.lean) -/
 def PresolveEarliest : Prop :=
-  ∀ (cfg : Cfg) (first : Bool) (s : St), 0 < cfg.rule → Inv cfg s → s.simTime < s.ruleIter * cfg.rule →
+  ∀ (cfg : Cfg) (first : Bool) (s : St), 0 < cfg.rule → Inv cfg s → RulesInert cfg s → NodupKeys s.vals →
     ((presolve cfg first s).simTime, (presolve cfg first s).vals) =
       landSpec s.vals s.simTime (presolveDue cfg first s) s.vals
+
+/-- **`PresolveEarliest` holds** (group-boundary argument: `runGroup` is `takeWhile` on the rest of the due list, the
+loop head always sees unchanged values) -/
+theorem presolve_earliest_holds : PresolveEarliest :=
+  fun _ first _ hR inv hin hnd => presolve_earliest hR first inv hin (changed_self _ hnd)
+
+example : RulesInert cfgEx { simTime := 7200, prevTime := 3600, ruleIter := 21, vals := [(0, 1)] } := Or.inr (by decide)
+example : landSpec [(0, 1)] 7200 [⟨⟨0, 3, .sim ⟨.eq, 5400, 0⟩, [⟨0, 0⟩], []⟩, .thenB, 1800⟩] [(0, 1)] = (5400, [(0, 0)]) := by
+  rw [landSpec_cons]; decide
+
+/-- **earliest effective instant (one pass)**: if `presolve` accepts a time later than the instant of a due control `d`,
+then serving in order ALL controls due at instants up to and including `d`'s changed no tracked value — so the accepted
+time is the first instant at which the accumulated actions change something -/
+theorem earliest_effective_instant {cfg : Cfg} (hR : 0 < cfg.rule) {s : St} (inv : Inv cfg s) (hin : RulesInert cfg s)
+    (hnd : NodupKeys s.vals) (d : Due) (hd : d ∈ presolveDue cfg false s)
+    (hlt : s.simTime - d.back < (presolve cfg false s).simTime) :
+    changed s.vals (((presolveDue cfg false s).takeWhile (fun x => decide (d.back ≤ x.back))).foldl (fun v x => x.run v) s.vals) = false := by
+  have he := presolve_earliest hR false inv hin (changed_self _ hnd)
+  have h1 : (presolve cfg false s).simTime = (landSpec s.vals s.simTime (presolveDue cfg false s) s.vals).1 := by rw [← he]
+  rw [h1] at hlt
+  have hs : (presolveDue cfg false s).Pairwise (fun a b => b.back ≤ a.back) := by
+    unfold presolveDue; simp only [Bool.false_eq_true, if_false]; exact sortDue_sorted _
+  exact landSpec_earliest s.vals s.simTime _ _ s.vals (le_refl _) hs d hd hlt
+
+/-- **`no_instant_skipped`** (along a whole run, pure time-control configurations): for every one-shot time control
+`AT TIME thr` and every legitimate start, if `thr` lies after the start's previous time and not after the last accepted
+time of the run, then there is a pass of `run_sim` in whose window `(prev, accepted]` the instant lies, in which the
+control is due with exactly the backtrack that leads to `thr`, and EITHER `thr` is the accepted (solved, reported) time
+of that pass OR all controls due up to `thr` in that pass together changed no tracked value (nothing was to be done at
+the instant).  With `value_persists` (a key written by no control due in a pass keeps its value) this is the
+scheduler-level content of "acts exactly at its instant and the value holds until a later-firing control writes it". -/
+theorem no_instant_skipped {cfg : Cfg} (hR : 0 < cfg.rule) (hH : 0 < cfg.hyd) (hnr : cfg.rules = [])
+    {simTime prevTime : Int} (vals : Vals) (hnd : NodupKeys vals) (h : StartOK simTime prevTime)
+    (hleft : ¬ NothingLeft cfg simTime) (c : Ctl) (hc : c ∈ cfg.presolve) (thr : Int) (hcond : c.cond = .sim ⟨.eq, thr, 0⟩)
+    (h1 : (startState cfg simTime prevTime vals).prevTime < thr) (h2 : thr ≤ (runSim cfg simTime prevTime vals).1.prevTime) :
+    ∃ e ∈ runTrace cfg (runFuel cfg (startState cfg simTime prevTime vals).prevTime) (simTime == 0) (startState cfg simTime prevTime vals),
+      e.2.prevTime < thr ∧ thr ≤ (presolve cfg e.1 e.2).simTime ∧
+      ((presolve cfg e.1 e.2).simTime = thr ∨
+        ∃ d ∈ presolveDue cfg false e.2, d.ctl = c ∧ e.2.simTime - d.back = thr ∧
+          changed e.2.vals (((presolveDue cfg false e.2).takeWhile (fun x => decide (d.back ≤ x.back))).foldl (fun v x => x.run v) e.2.vals) = false) := by
+  rw [runSim_eq prevTime vals hleft] at h2
+  obtain ⟨e, he, hinv, hj, hp, hl, hfirst⟩ := runTrace_cover hR hH (fun s => NodupKeys s.vals)
+    (fun f s _ hj => hj.stepOnce f) thr _ (simTime == 0) _ [] (startState_inv hR vals h) hnd h1 h2
+  refine ⟨e, he, hp, hl, ?_⟩
+  have L := presolve_landed hR e.1 hinv
+  by_cases heq : (presolve cfg e.1 e.2).simTime = thr
+  · exact Or.inl heq
+  · right
+    have hlt : thr < (presolve cfg e.1 e.2).simTime := by omega
+    -- the first pass of a fresh model accepts time 0 only
+    have hf : e.1 = false := by
+      cases hb : e.1 with
+      | false => rfl
+      | true =>
+        exfalso
+        have hes := hfirst hb
+        have hfl : (simTime == 0) = true := by rw [hes] at hb; exact hb
+        have h0 : simTime = 0 := by simpa using hfl
+        have hst : e.2 = startState cfg simTime prevTime vals := by rw [hes]
+        have hle := L.le
+        rw [hst] at hle hp
+        subst h0
+        have e1 : (startState cfg 0 prevTime vals).simTime = 0 := rfl
+        have e2 : (startState cfg 0 prevTime vals).prevTime = -1 := rfl
+        rw [hst] at hlt
+        rw [e1] at hle; rw [e2] at hp
+        omega
+    rw [hf] at L hl hlt
+    have hle := L.le
+    -- the control is due in this pass with backtrack cur - thr
+    have hev : c.cond.eval cfg.startClock e.2.prevTime e.2.simTime = (true, some (e.2.simTime - thr)) := by
+      rw [hcond]; simp only [Cond.eval]; rw [simTime_eq_spec, if_pos ⟨hp, by omega⟩]
+    have hdue : (⟨c, .thenB, e.2.simTime - thr⟩ : Due) ∈ presolveDue cfg false e.2 := by
+      unfold presolveDue
+      simp only [Bool.false_eq_true, if_false]
+      apply mem_sortDue.2
+      unfold check
+      apply List.mem_filterMap.2
+      exact ⟨c, hc, by rw [hev]; rfl⟩
+    refine ⟨_, hdue, rfl, by simp only; omega, ?_⟩
+    exact earliest_effective_instant hR hinv (Or.inl hnr) hj _ hdue (by simp only; omega)
+
+/-- non-vacuity: a configuration without rules, a fresh start, the control of `cfgEx` at 5400 s -/
+example : (runSim { cfgEx with rules := [] } 0 (-1) [(0, 1)]).2.map (·.time) = [0, 3600, 5400, 7200, 10800, 14400] := by decide
 
 /-- the due list is processed in the time order of the instants (backtracks descending) -/
 theorem due_in_time_order (cfg : Cfg) (s : St) :
